@@ -616,7 +616,8 @@ def pattern_reference(kind, pattern, text):
     members = kind if isinstance(kind, list) else [kind]
     for k in members:
         if member_ok(k, text):
-            return re.fullmatch(pattern, norm(k, text)) is not None
+            # (a list of patterns = one restriction level per pattern: every level is in force)
+            return all(re.fullmatch(p, norm(k, text)) is not None for p in (pattern if isinstance(pattern, list) else [pattern]))
     return False
 
 
@@ -628,8 +629,12 @@ def subject_pattern(case):
         bname = 'U'
     else:
         base, bname = '', kind
+    levels = pattern if isinstance(pattern, list) else [pattern]
+    for i, p in enumerate(levels[:-1]):
+        base += '<xs:simpleType name="P%d"><xs:restriction base="%s"><xs:pattern value="%s"/></xs:restriction></xs:simpleType>' % (i, bname, p)
+        bname = 'P%d' % i
     xsd = ('<xs:schema xmlns:xs="http://www.w3.org/2001/XMLSchema">%s<xs:simpleType name="P"><xs:restriction base="%s">'
-           '<xs:pattern value="%s"/></xs:restriction></xs:simpleType></xs:schema>' % (base, bname, pattern))
+           '<xs:pattern value="%s"/></xs:restriction></xs:simpleType></xs:schema>' % (base, bname, levels[-1]))
     cls = xmlschema.XMLSchema11 if case['version'] == '1.1' else xmlschema.XMLSchema10
     ty = cls(xsd).types['P']
     out = []
@@ -649,6 +654,10 @@ def check_patterns(ctx):
         for kind in kinds:
             for p in PATTERNS:
                 cases.append({'kind': kind, 'pattern': p, 'version': version, 'texts': PAT_TEXTS})
+            # two and three restriction levels, one pattern each
+            chains = [[p, q] for p in PATTERNS for q in PATTERNS if p != q] + [[PATTERNS[2], PATTERNS[4], PATTERNS[0]], [PATTERNS[4], PATTERNS[2], PATTERNS[3]]]
+            for ch in (chains if not ctx.quick() else ctx.rng.sample(chains, 8)):
+                cases.append({'kind': kind, 'pattern': ch, 'version': version, 'texts': PAT_TEXTS})
     impl = common.pool_map(subject_pattern, cases)
     for c, o in zip(cases, impl):
         if isinstance(o, dict):
@@ -656,7 +665,7 @@ def check_patterns(ctx):
             continue
         for t, v in zip(c['texts'], o):
             want = pattern_reference(c['kind'], c['pattern'], t)
-            ctx.count(('pat', json.dumps(c['kind']), c['pattern'], c['version'], t), nontrivial=len(t) > 0)
+            ctx.count(('pat', json.dumps(c['kind']), json.dumps(c['pattern']), c['version'], t), nontrivial=len(t) > 0)
             if v != want:
                 ctx.violation('restriction(%s, pattern=%r) (XSD %s): text %r is %s, the pattern on the normalised text says %s'
                               % (c['kind'], c['pattern'], c['version'], t, v, want),
